@@ -95,10 +95,11 @@ type FieldBuildContext struct {
 func NewFieldBuildContext(m MessageBuildContext, field *FieldDescriptorProtoExt, index int) (*FieldBuildContext, error) {
 	typeName := m.GetName() + "." + field.GetName()
 	path := m.GetPath() + "." + field.GetName()
-	// If the field is an embedded field, path should be
-	// message name, instead of full path to message name.
+	// If the field is an embedded field, it does not add a segment of its own: its fields are
+	// flattened into the containing message and are addressed as that message's own fields are
+	// (Root.Field.SubField). For a root message the path of the message is its name.
 	if gogoproto.IsEmbed(field.FieldDescriptorProto) {
-		path = m.GetName()
+		path = m.GetPath()
 	}
 
 	var t string
